@@ -147,6 +147,18 @@ type c14Job struct {
 	Src string       `json:"src"`
 	Lim int          `json:"lim"`
 	Api []c14ApiBind `json:"api"`
+	// the session history run after src and the api bindings, before the final save (SaveLoad!StepJ)
+	Steps []c14Step `json:"steps,omitempty"`
+	Extra []c14Val  `json:"extra,omitempty"` // injected after the api values: c14val(len(api)+i)
+}
+
+// c14Step is one step of a session history: an input given to the session the way the REPL gives it
+// (repl.EvalOne; echo = the REPL prints the result), an auto-save, or the end of the session (auto-save, then a
+// fresh session that auto-loads).
+type c14Step struct {
+	Op   string `json:"op"` // in | autosave | session
+	Src  string `json:"src"`
+	Echo bool   `json:"echo"`
 }
 
 type c14Call struct {
@@ -651,9 +663,40 @@ func c14Worker(args []string) {
 	os.Exit(0)
 }
 
+// c14RunSteps runs a session history on s and returns the session it ends in.
+func c14RunSteps(s *eval.State, buf *bytes.Buffer, job c14Job) (*eval.State, *bytes.Buffer, error) {
+	opts := repl.Options{All: true, NoColor: true, AutoLoad: true, AutoSave: true, MaxValueLen: job.Lim, MaxDuration: 5 * time.Second}
+	for i, st := range job.Steps {
+		switch st.Op {
+		case "in":
+			o := opts
+			o.ShowEval = st.Echo
+			_, _, _, _ = repl.EvalOne(context.Background(), s, st.Src, buf, o) // a rejected input changes nothing: that is the model's reading too
+		case "autosave":
+			if err := repl.AutoSave(s, opts); err != nil {
+				return s, buf, fmt.Errorf("step %d: AutoSave: %v", i, err)
+			}
+		case "session":
+			if err := repl.AutoSave(s, opts); err != nil {
+				return s, buf, fmt.Errorf("step %d: AutoSave: %v", i, err)
+			}
+			s, buf = c14NewState()
+			s.MaxValueLen = job.Lim
+			if err := repl.AutoLoad(s, opts); err != nil {
+				return s, buf, fmt.Errorf("step %d: AutoLoad: %v", i, err)
+			}
+		default:
+			return s, buf, fmt.Errorf("step %d: unknown op %q", i, st.Op)
+		}
+	}
+	return s, buf, nil
+}
+
 func c14Save(job c14Job) (rec c14SaveRec) {
 	rec.ID, rec.Lim = job.ID, job.Lim
 	s, buf := c14NewState()
+	s.MaxValueLen = job.Lim
+	_ = os.Remove(repl.AutoSaveFile)
 	if job.Src != "" {
 		if _, err, _ := c14Eval(s, job.Src, 5*time.Second); err != nil {
 			rec.SetupErr = "src: " + err.Error()
@@ -673,6 +716,23 @@ func c14Save(job c14Job) (rec c14SaveRec) {
 			return rec
 		}
 	}
+	for _, v := range job.Extra {
+		o, err := v.object()
+		if err != nil {
+			rec.SetupErr = err.Error()
+			return rec
+		}
+		c14Inject = append(c14Inject, o)
+	}
+	if len(job.Steps) > 0 {
+		var err error
+		if s, buf, err = c14RunSteps(s, buf, job); err != nil {
+			rec.SetupErr = err.Error()
+			return rec
+		}
+	}
+	// the file the history left behind (an auto-save that finds nothing changed since keeps it)
+	left, leftErr := os.ReadFile(repl.AutoSaveFile)
 	rec.Globals = c14Globals(s)
 	// the bytes: State.SaveGlobals with the limit, without it, through save() and through repl.AutoSave
 	var fb bytes.Buffer
@@ -698,6 +758,9 @@ func c14Save(job c14Job) (rec c14SaveRec) {
 	rec.SaveExt, err = c14ReadFileAndRemove(repl.AutoSaveFile)
 	if err != nil && rec.SaveErr == "" {
 		rec.SaveErr = err.Error()
+	}
+	if leftErr == nil {
+		_ = os.WriteFile(repl.AutoSaveFile, left, 0o644)
 	}
 	if err := repl.AutoSave(s, repl.Options{AutoSave: true, MaxValueLen: job.Lim}); err != nil {
 		rec.AutoErr = err.Error()
